@@ -2,6 +2,7 @@ CONSTANTS
   MaxBlocks = 1
   MaxBlocksAll = 1
   ExtraKinds <- NoKinds
+  ExtraKindsAll <- NoKinds
   BigCounts <- BigQuick
 SPECIFICATION Spec
 INVARIANTS MachineOK FormOK EncodingsOK GenExact EmitCase
